@@ -9,7 +9,8 @@
   * `view_inv_*`       — the constructors establish `Inv`, every operation preserves it, for all histories.
   * codec theorems.
 -/
-import GojaModel.C17.Overlap
+import GojaModel.C17.Sort
+import GojaModel.C17.Float32
 
 namespace GojaModel.C17
 
@@ -102,18 +103,23 @@ theorem step_spec {P : Touch → Prop} (hall : ∀ b lo hi, PRange P b lo hi) (s
     cases hv : s.views[v]? with
     | none => unfold opWith; rw [hv]; exact c
     | some w => exact opWith_spec i a hv c (hall _ _ _)
-  | filter v keep detAt det =>
-    show Ctx P (opFilter s v keep detAt det).2
+  | filter v keep detAt det sp =>
+    show Ctx P (opFilter s v keep detAt det sp).2
     cases hv : s.views[v]? with
     | none => unfold opFilter; rw [hv]; exact c
-    | some w => exact opFilter_spec keep detAt det hv c (hall _ _ _)
+    | some w => exact opFilter_spec keep detAt det sp hv c (hall _ _ _) (fun _ _ _ _ _ => hall _ _ _)
   | map v sp vals =>
     show Ctx P (opMap s v sp vals).2
     cases hv : s.views[v]? with
     | none => unfold opMap; rw [hv]; exact c
     | some w => exact opMap_spec sp vals hv c (hall _ _ _) (fun _ _ _ _ _ => hall _ _ _)
   | of_ ct vals => exact opOf_spec ct vals c (fun _ _ _ _ _ => hall _ _ _)
-  | abSlice b st fi => exact opABSlice_spec b st fi c (fun _ => hall _ _ _)
+  | abSlice b st fi sp => exact opABSlice_spec b st fi sp c (fun _ => hall _ _ _) (fun _ _ _ _ => hall _ _ _)
+  | iterate v k det =>
+    show Ctx P (opIterate s v k det).2
+    cases hv : s.views[v]? with
+    | none => unfold opIterate; rw [hv]; exact c
+    | some w => exact opIterate_spec k det hv c (hall _ _ _)
   | search v m se fr =>
     show Ctx P (opSearch s v m se fr).2
     cases hv : s.views[v]? with
@@ -276,10 +282,20 @@ theorem with_within_view (s : State) (vi : Nat) (v : View) (idx : IArg) (a : VAr
     ∀ t ∈ (opWith { s with log := [] } vi idx a).2.log, InView v t :=
   (opWith_spec idx a (s := { s with log := [] }) hv (ctx0 hi) (pRange_inView v)).log
 
-theorem filter_within_view (s : State) (vi : Nat) (v : View) (keep : List Bool) (detAt : Nat) (det : List Nat)
+theorem filter_within_view (s : State) (vi : Nat) (v : View) (keep : List Bool) (detAt : Nat) (det : List Nat) (sp : Species)
     (hi : Inv s) (hv : s.views[vi]? = some v) :
-    ∀ t ∈ (opFilter { s with log := [] } vi keep detAt det).2.log, InView v t :=
-  (opFilter_spec keep detAt det (s := { s with log := [] }) hv (ctx0 hi) (pRange_inView v)).log
+    ∀ t ∈ (opFilter { s with log := [] } vi keep detAt det sp).2.log,
+      InView v t ∨ ∃ di sdet dst, sp = some (di, sdet) ∧ s.views[di]? = some dst ∧ InView dst t :=
+  (opFilter_spec keep detAt det sp (s := { s with log := [] })
+    (P := fun t => InView v t ∨ ∃ di sdet dst, sp = some (di, sdet) ∧ s.views[di]? = some dst ∧ InView dst t)
+    hv (ctx0 hi) (fun _ _ h1 h2 => Or.inl ⟨rfl, h1, h2⟩)
+    (fun di sdet dst h1 h2 _ _ h3 h4 => Or.inr ⟨di, sdet, dst, h1, h2, rfl, h3, h4⟩)).log
+
+/-- `values()` / `entries()` iteration, with a detach after any element -/
+theorem iterate_within_view (s : State) (vi : Nat) (v : View) (detAt : Nat) (det : List Nat)
+    (hi : Inv s) (hv : s.views[vi]? = some v) :
+    ∀ t ∈ (opIterate { s with log := [] } vi detAt det).2.log, InView v t :=
+  (opIterate_spec detAt det (s := { s with log := [] }) hv (ctx0 hi) (pRange_inView v)).log
 
 /-- **within_view (indexOf / lastIndexOf / includes)** — for every search value, every fromIndex (any integer, ±∞ clamps,
 absent) and every adversary, the scan reads only bytes of the view. This is the statement seeded mutation C17-m1
@@ -309,9 +325,11 @@ length 4, fromIndex 4: index 4 is not `< 4` -/
 theorem lastIndexOf_m1_witness : ¬ ((min (4 : Int) 4 + 1).toNat ≤ (4 : Int).toNat) := by decide
 
 /-- `ArrayBuffer.prototype.slice` touches only the receiver buffer -/
-theorem abSlice_within_buffer (s : State) (b : Nat) (st fi : Option IArg) (hi : Inv s) :
-    ∀ t ∈ (opABSlice { s with log := [] } b st fi).2.log, t.buf = b :=
-  (opABSlice_spec b st fi (s := { s with log := [] }) (P := fun t => t.buf = b) (ctx0 hi) (fun _ _ _ _ _ => rfl)).log
+theorem abSlice_within_buffer (s : State) (b : Nat) (st fi : Option IArg) (sp : BufSpecies) (hi : Inv s) :
+    ∀ t ∈ (opABSlice { s with log := [] } b st fi sp).2.log, t.buf = b ∨ ∃ nb sdet, sp = some (nb, sdet) ∧ t.buf = nb :=
+  (opABSlice_spec b st fi sp (s := { s with log := [] })
+    (P := fun t => t.buf = b ∨ ∃ nb sdet, sp = some (nb, sdet) ∧ t.buf = nb) (ctx0 hi)
+    (fun _ _ _ _ _ => Or.inl rfl) (fun nb sdet _ h _ _ _ _ => Or.inr ⟨nb, sdet, h, rfl⟩)).log
 
 /-! ## bytes_eq_spec: the bytes an operation leaves behind, as a function of the byte array before it -/
 
@@ -508,6 +526,41 @@ theorem setTA_diffKind_bytes_eq_goja (s : State) (vi si : Nat) (v src : View) (o
                 exact (set_sameSize_live_eq_clone' _ d _ _ _ _ _ he).symm
               · rename_i hne
                 exact (set_diffSize_live_eq_clone _ d _ _ _ _ _ hne).symm
+
+/-! ## sort -/
+
+/-- **sort, default comparator: the view afterwards holds a sorted permutation of its elements** (see `Sort.lean`):
+raw elements after = `stableSort` of the raw elements before, which is a permutation in non-decreasing default order
+(numbers ascending, −0 before +0, NaN last: `numLess_negZero_posZero`, `numLess_nan_last`); buffer length and every byte
+outside the view unchanged. -/
+theorem sort_default_sorted_permutation (s : State) (vi : Nat) (v : View) (hi : Inv s) (hv : s.views[vi]? = some v)
+    (hok : (opSort s vi none).1 = .ok) :
+    ∃ d d', s.data? v.buf = some d ∧ (opSort s vi none).2.data? v.buf = some d' ∧ d'.length = d.length ∧
+      elemsOf d' v = stableSort (elemLess v.kind) (elemsOf d v) ∧
+      (elemsOf d' v).Perm (elemsOf d v) ∧ Sorted (elemLess v.kind) (elemsOf d' v) ∧
+      (∀ lo n, (lo + n ≤ v.lo ∨ v.hi ≤ lo) → window d' lo n = window d lo n) :=
+  sort_bytes_sorted_perm s vi v hi hv hok
+
+theorem sort_order_negZero_before_posZero : numLess (.dbl (2 ^ 63)) (.dbl 0) = true := numLess_negZero_posZero
+
+theorem sort_order_nan_last (b : Nat) (hb : f64IsNaN b = false) :
+    numLess (.dbl b) (.dbl nanBits) = true ∧ numLess (.dbl nanBits) (.dbl b) = false := numLess_nan_last b hb
+
+/-- **sort, user comparator: the `typedArraySortCtx` protocol under detach** — for ANY sequence of `Less(i,j)` / `Swap(i,j)`
+calls with `i, j < length` (whatever algorithm `sort.Stable` runs and whatever the comparator answers) and any adversary
+detaching buffers inside comparator calls, every element touch happens while the buffer is attached, is in bounds and
+lies inside the view. -/
+theorem sort_comparator_protocol_safe (s : State) (vi : Nat) (v : View) (calls : List SortCall) (hi : Inv s)
+    (hv : s.views[vi]? = some v) (hatt : s.attached v.buf = true) (hx : ∀ x ∈ calls, x.inRange v.length) :
+    ∀ t ∈ (sortCalls { s with log := [] } v {} calls).1.log, t.ok = true ∧ InView v t :=
+  sort_protocol_safe s vi v calls hi hv hatt hx
+
+/-- seeded mutation C17-m2 (Swap without `checkDetached`) violates the protocol theorem -/
+theorem sort_swap_without_recheck_witness :
+    let s0 : State := { bufs := [some [3, 2, 1, 0]], views := [⟨0, 0, 4, .u8⟩] }
+    let v : View := ⟨0, 0, 4, .u8⟩
+    let r := sortCall s0 v {} (.less 1 0 [0])
+    ¬ (∀ t ∈ (swapNoRecheck r.1 v r.2 1 0).log, t.ok = true) := sort_m2_witness
 
 /-! ## the copyWithin defect of the pinned commit, as a witness on the model without the clamp -/
 
@@ -726,6 +779,34 @@ theorem f64ToU8Clamp_nearest (b k sig : Nat) (hn : f64IsNaN b = false) (hs : f64
           refine ⟨by omega, fun h => by omega, fun _ => ?_⟩
           rw [hX]
           exact ⟨by omega, by omega, fun _ => heven⟩
+
+/-! ## Float32Array stores round to nearest, ties to even (see `Float32.lean`) -/
+
+/-- the rounding primitive of `f64ToF32`: with `q = rneShift sig k`, `2·|q·2^k − sig| ≤ 2^k` and ties give an even `q` -/
+theorem float32_round_nearest_even (sig k : Nat) (hk : 1 ≤ k) :
+    2 * (rneShift sig k * 2 ^ k) ≤ 2 * sig + 2 ^ k ∧ 2 * sig ≤ 2 * (rneShift sig k * 2 ^ k) + 2 ^ k ∧
+    ((2 * (rneShift sig k * 2 ^ k) = 2 * sig + 2 ^ k ∨ 2 * sig = 2 * (rneShift sig k * 2 ^ k) + 2 ^ k) → rneShift sig k % 2 = 0) :=
+  let h := rneShift_nearest sig k hk; ⟨h.1, h.2.1, h.2.2.1⟩
+
+/-- **normal range**: the float32 stored for the double `(s, e, m)` widens back to the double with significand exactly
+`q·2^29`, `q = rneShift (m+2^52) 29`, at exponent `e` (or `2^52` at `e+1` when the rounding carried) — i.e. the stored value
+is `q·2^(e−1075+29)`, by `float32_round_nearest_even` the float32 nearest to `(m+2^52)·2^(e−1075)`, ties to even. -/
+theorem float32_store_load_normal (s : Bool) (e m q : Nat) (he1 : 896 < e) (he2 : e < 2047) (hm : m < 2 ^ 52)
+    (hq : q = rneShift (m + 2 ^ 52) 29) (hno : (e - 897) * 2 ^ 23 + q < 0x7f800000) :
+    (q < 2 ^ 24 → f32ToF64 (f64ToF32 (mkF64 s e m)) = mkF64 s e ((q - 2 ^ 23) * 2 ^ 29)) ∧
+    (q = 2 ^ 24 → f32ToF64 (f64ToF32 (mkF64 s e m)) = mkF64 s (e + 1) 0) :=
+  f32_store_load_normal s e m q he1 he2 hm hq hno
+
+/-- **subnormal range** of float32 (`e ≤ 896`): the stored bits are the sign and `rneShift sig (926−e)`, the nearest-even
+multiple of 2^−149; **overflow**: ±∞ -/
+theorem float32_store_subnormal (s : Bool) (e m : Nat) (he1 : 0 < e) (he2 : e ≤ 896) (hm : m < 2 ^ 52) :
+    f64ToF32 (mkF64 s e m) = (if s then 2 ^ 31 else 0) + rneShift (m + 2 ^ 52) (926 - e) :=
+  f64ToF32_subnormal s e m he1 he2 hm
+
+theorem float32_store_overflow (s : Bool) (e m : Nat) (he1 : 896 < e) (he2 : e < 2047) (hm : m < 2 ^ 52)
+    (hov : (e - 897) * 2 ^ 23 + rneShift (m + 2 ^ 52) 29 ≥ 0x7f800000) :
+    f64ToF32 (mkF64 s e m) = (if s then 2 ^ 31 else 0) + 0x7f800000 :=
+  f64ToF32_overflow s e m he1 he2 hm hov
 
 /-! ## non-vacuity (these are tests on literals, not theorems about all inputs) -/
 
